@@ -901,4 +901,54 @@ theorem anyEnabled_iff (c : Cfg) (s : State) : anyEnabled c s = true ↔ Enabled
   · rintro ⟨t, ht, h⟩; exact ⟨t, by omega, h⟩
   · rintro ⟨t, ht, h⟩; exact ⟨t, by omega, h⟩
 
+
+/-! ## the sequential selection -/
+/-- what the sequential scan has established after looking at trial indices `0..K-1` -/
+def SelInv (less : Nat → Nat → Bool) (m K : Nat) (acc : Acc) : Prop :=
+  (acc = (some 0, none) ∧ ∀ j, 1 ≤ j → j < K → less j 0 = false ∧ j ≠ m - 1) ∨
+  (∃ k, 1 ≤ k ∧ k < K ∧ acc = (some 0, some (some k, less k 0)) ∧ (less k 0 = true ∨ k = m - 1) ∧
+      ∀ j, 1 ≤ j → j < k → less j 0 = false)
+
+theorem flat_selInv (less : Nat → Nat → Bool) (m : Nat) : ∀ K, 1 ≤ K → SelInv less m K (flat less m K) := by
+  intro K hK
+  induction K with
+  | zero => omega
+  | succ K ih =>
+    rw [flat_succ]
+    rcases Nat.eq_zero_or_pos K with h0 | hpos
+    · subst h0
+      left
+      refine ⟨by simp [flat, selStep], ?_⟩
+      intro j h1 h2; omega
+    · rcases ih hpos with ⟨hacc, hall⟩ | ⟨k, hk1, hk2, hacc, hor, hall⟩
+      · rw [hacc]
+        have hK0 : K ≠ 0 := by omega
+        by_cases hc : (less K 0 || K == m - 1) = true
+        · right
+          refine ⟨K, hpos, Nat.lt_succ_self K, ?_, ?_, ?_⟩
+          · simp [selStep, hK0, hc]
+          · simpa using hc
+          · intro j h1 h2; exact (hall j h1 h2).1
+        · left
+          have hc' : less K 0 = false ∧ K ≠ m - 1 := by simpa using hc
+          refine ⟨?_, ?_⟩
+          · simp [selStep, hK0, hc'.1, hc'.2]
+          · intro j h1 h2
+            rcases Nat.lt_succ_iff_lt_or_eq.mp h2 with h3 | h3
+            · exact hall j h1 h3
+            · subst h3; exact hc'
+      · right
+        refine ⟨k, hk1, Nat.lt_succ_of_lt hk2, ?_, hor, hall⟩
+        rw [hacc]; rfl
+
+/-- what `selectSeq` chooses: the first index `k ≥ 1` whose residual is below that of index 0, or the last
+    index `m-1` if there is none; `feasible` says which of the two happened. -/
+theorem selectSeq_spec (less : Nat → Nat → Bool) (m : Nat) (hm : 2 ≤ m) :
+    ∃ k, 1 ≤ k ∧ k < m ∧ selectSeq less m = (some 0, some (some k, less k 0)) ∧
+      (less k 0 = true ∨ k = m - 1) ∧ ∀ j, 1 ≤ j → j < k → less j 0 = false ∧ j ≠ m - 1 := by
+  rcases flat_selInv less m m (by omega) with ⟨_, hall⟩ | ⟨k, hk1, hk2, hacc, hor, hall⟩
+  · exact absurd rfl (hall (m-1) (by omega) (by omega)).2
+  · refine ⟨k, hk1, hk2, hacc, hor, fun j h1 h2 => ⟨hall j h1 h2, by omega⟩⟩
+
+
 end PsV.Sync
